@@ -102,7 +102,7 @@ func init() {
 		Property: "C15",
 		Enum:     enumC15Ord,
 		Run:      runC15Ord,
-		Budget:   budget(5*time.Minute, 45*time.Minute),
+		Budget:   budget(8*time.Minute, 45*time.Minute),
 	})
 }
 
